@@ -42,7 +42,9 @@ func c11Replay(nMsgs, nSubs int, buffer int64, preSub bool) {
 		}()
 	}
 	for k := 0; k < nMsgs; k++ {
-		vrt.Assert(g.Publish("t", newMsg(k)) == nil, "publish succeeds")
+		m := newMsg(k)
+		vrt.Assert(g.Publish("t", m) == nil, "publish succeeds")
+		m.UUID = "reused-by-publisher" // the persisted history must not depend on what the publisher does with its object afterwards
 	}
 	vrt.AtQuiescence(func() {
 		for i := 0; i < nSubs; i++ {
